@@ -241,9 +241,11 @@ def d3_tables(chk, repo):
             okq = False
     chk.ob(T + "topological_charge_density::density-normalisation", okq, "C19.D3",
            "q[i, j] must be charge / (area * triangle_count) with area = cell[0]*cell[1]/2", v.f, sts[0] if sts else lp)
-    vcond = [s for s in lp.body if isinstance(s, ast.If)]
-    chk.ob(T + "topological_charge_density::invalid-cells-skipped", bool(vcond) and
-           v.eq(v.ev.term(vcond[0].test, at=vcond[0]), v.spec("o.valid[i, j]", env=env)), "C19.D3",
+    # the density of a cell is written only when the cell is valid (whatever the shape of the guard: `if valid:` around
+    # the body, or `if not valid: continue` in front of it)
+    qstores = [s for s in walk_stmts(lp.body) if isinstance(s, ast.Assign) and isinstance(s.targets[0], ast.Subscript)]
+    chk.ob(T + "topological_charge_density::invalid-cells-skipped", bool(qstores) and
+           all(reached_implies(v, s, v.spec("o.valid[i, j]", env=env)) for s in qstores), "C19.D3",
            "only valid cells get a charge density", v.f, lp)
     # emergent field
     w = FV(repo, T + "emergent_magnetic_field", param_types=PT)
@@ -580,16 +582,15 @@ def d7_completions(chk, repo):
         sts = [s_ for s_ in walk_stmts(lp.body) if isinstance(s_, ast.Assign) and isinstance(s_.targets[0], ast.Subscript)]
         if sts and tc_name:
             tc = local_term(v, tc_name, sts[0])
-            pts = v.cfg.parent.get(id(sts[0]))
-            okg = bool(pts and isinstance(pts[0], ast.If) and pts[1] == "body" and
-                       v.eq(v.ev.term(pts[0].test, at=pts[0]), v.spec("t > 0", env={"t": local_term(v, tc_name, pts[0])})))
+            tpos = v.spec("t > 0", env={"t": local_term(v, tc_name, sts[0])})
+            okg = reached_implies(v, sts[0], tpos) and implies_reached(v, tpos, sts[0])
             chk.ob(T + "topological_charge_density::normalised-iff-triangles-found", okg, "C19.D7",
                    "the density is written exactly when at least one triangle was found (no division by zero, no lost cell)", v.f, sts[0])
     # neighbouring angles: degrees on request only
     n_ = FV(repo, T + "neighbouring_cell_angle", param_types=PT)
     for st in n_.stmts():
         if isinstance(st, ast.Assign) and (decode_call(n_.ctx, n_.term(st.value, at=st)) or ("",))[0] == "np.degrees":
-            chk.ob(T + "neighbouring_cell_angle::degrees-iff-requested", cond_equiv(n_, path_term(n_, st), n_.spec("units == 'deg'")),
+            chk.ob(T + "neighbouring_cell_angle::degrees-iff-requested", reached_iff(n_, st, n_.spec("units == 'deg'")),
                    "C19.D7", f"degrees are produced under {n_.show(path_term(n_, st))}", n_.f, st)
     for r, a in cm.returned_news(n_):
         val = a.get("value")
